@@ -111,7 +111,7 @@ def bonds_table(n, edges, pos, factor=None, order_rng=None):
             length = float(np.linalg.norm(np.array(pos[i]) - np.array(pos[j])))
             if factor is not None:
                 key = (min(i, j), max(i, j))
-                length *= factor[key]
+                length = factor[key][1] if isinstance(factor[key], tuple) else length * factor[key]
             info[i].append((j, length))
     return {i: l for i, l in info.items() if l}
 
@@ -183,6 +183,9 @@ def exec_enum_trees(trace, ctx):
         # the same molecule and the same moved atom again, with ANOTHER bond table (another conformation of the species):
         # the result must follow the table handed over now, not one seen earlier
         factor2 = {(min(i, j), max(i, j)): rng.uniform(0.7, 1.3) for i, j in edges}
+        if idx % 3 == 2:
+            # tabulated lengths as force fields have them: a few values, many bonds with EXACTLY the same length
+            factor2 = {k_: ("abs", rng.choice([0.109, 0.153, 0.153, 0.25])) for k_ in factor2}
         table2 = bonds_table(n, edges, pos, factor2, order_rng=nb_rng)
         if idx % 2:
             table, table2 = shuffled_keys(table, rng), shuffled_keys(table2, rng)
@@ -244,6 +247,9 @@ def exec_random_graph(trace, ctx):
     factor = None
     if trace["table"] == "perturbed":
         factor = {(min(i, j), max(i, j)): rng.uniform(0.7, 1.3) for i, j in edges}
+        if trace["seed"] % 3 == 0:
+            factor = {k_: ("abs", rng.choice([0.109, 0.153, 0.153, 0.25]) * unit) for k_ in factor}
+            ctx.probe("many_bonds_of_exactly_equal_tabulated_length")
         ctx.probe("bond_table_disagrees_with_geometry")
     nb_rng = rng if trace["seed"] % 3 == 1 else None
     table = bonds_table(n, edges, pos, factor, order_rng=nb_rng)
